@@ -53,8 +53,10 @@ pub fn stats_case<T: Sc>(rng: &mut Rng, idx: usize, thorough: bool) -> FitCase<T
     // Phi do not (badly column-scaled H^T H; tiny singular values of H that are NOT a rank defect)
     let amp: f64 = if interp {
         1.0
-    } else if idx % 3 == 1 {
-        if T::WIDTH == 32 { *rng.pick(&[1e-4, 1e4]) } else { *rng.pick(&[1e-9, 1e-4, 1e4, 1e6]) }
+    } else if (T::WIDTH == 32 && (idx / 6) % 2 == 1) || (T::WIDTH != 32 && idx % 3 == 1) {
+        // (the single precision cases sit at idx = 5 mod 6, so they are selected by another digit)
+        // (single precision: also units in which SQUARES of the residuals leave the range of the type)
+        if T::WIDTH == 32 { [1e-4, 1e4, 1e-19, 1e-4, 1e4, 1e-20][(idx / 12) % 6] } else { *rng.pick(&[1e-9, 1e-4, 1e4, 1e6]) }
     } else {
         1.0
     };
